@@ -5,7 +5,10 @@
 (*          through a real Endpoint): how each context component related to the     *)
 (*          issued one (same, or which kind of different value), the                *)
 (*          damage kind, the time offset d = dsec s + dns ns, the result             *)
-(*   srt    one tokenForConnID observation <<key id, cid id, token id>> (identities  *)
+(*   srt    one stateless-reset token observation <<key id, cid id, token id>>: a     *)
+(*          tokenForConnID call (fresh slice, reused buffer, fresh generator,         *)
+(*          concurrent) or the trailing 16 bytes of a stateless reset an Endpoint     *)
+(*          sent for a datagram with that destination connection id (identities      *)
 (*          of byte strings, interned by the driver)                                 *)
 (* Every line must be allowed by QuicTokens.                                         *)
 EXTENDS QuicTokens, TraceIO
